@@ -295,6 +295,37 @@ def run(repo, chk):
     chk.ob("R05.5", "overlay.BaseOverlay.__enter__:extends-current", ok, en.where,
            f"the installed collection is curr.plus(handlers) when a collection is current and a fresh one otherwise (found {coll_defs})")
     chk.ob("R05.5", "overlay.BaseOverlay.__enter__:handlers-paired-with-own-selector", len(fresh) == 1 and len(ext) == 1 and len(currs) == 1, en.where, "every handler of the overlay is installed, paired with its own selector, relative to the current collection")
+    # the blocks opened from one overlay (tapping / tweaking / rewriting fork it and add their rule) do not share a handler list
+    oi = repo.func("overlay.BaseOverlay.__init__")
+    st = [n for n in walk_local(oi.node) if isinstance(n, ast.Assign) and len(n.targets) == 1 and norm(n.targets[0]) == "self.handlers"]
+    va = oi.node.args.vararg.arg if oi.node.args.vararg else None
+    ok = len(st) == 1 and va is not None and norm(st[0].value) in (f"list({va})", f"[*{va}]") 
+    chk.ob("R05.5", "overlay.BaseOverlay.__init__:own-handler-list", ok, oi.where,
+           f"every overlay keeps its handlers in a list of its own, created from the constructor arguments (`{norm(st[0]) if st else 'no store found'}`)")
+    fk = repo.func("overlay.BaseOverlay.fork")
+    ctor_names = {"type(self)", "self.__class__"} | {c.rsplit(".", 1)[-1] for c in repo.classes if "overlay.BaseOverlay" in repo.mro(c)}
+    rets = returns_of(fk.node)
+
+    def fresh_overlay(v):
+        v_ = ast.parse(expand(v, fk.node), mode="eval").body if v is not None else None
+        return isinstance(v_, ast.Call) and norm(v_.func) in ctor_names and not v_.keywords and len(v_.args) == 1 and isinstance(v_.args[0], ast.Starred) \
+            and norm(v_.args[0].value) == "self.handlers"
+    chk.ob("R05.5", "overlay.BaseOverlay.fork:a-new-overlay-with-its-own-list", bool(rets) and all(fresh_overlay(r_.value) for r_ in rets), fk.where,
+           "fork() goes through the constructor with the handlers unpacked (the constructor copies them into a new list): a rule added to the fork "
+           f"-- what tapping / tweaking / rewriting do -- never lands in the overlay it was forked from (returns: {[norm(r_.value) for r_ in rets]})")
+    forks, bad_adds = [], []
+    for q in ("overlay.Overlay.tweaking", "overlay.Overlay.rewriting", "overlay.Overlay.tapping"):
+        f2 = repo.func(q)
+        for n in walk_local(f2.node):
+            if isinstance(n, ast.Call) and isinstance(n.func, ast.Attribute) and n.func.attr in ("tweak", "rewrite", "tap", "add", "register", "use", "on"):
+                forks.append((q, n))
+                rv = n.func.value
+                stores = [a for a in walk_local(f2.node) if isinstance(a, ast.Assign) and any(is_name(t, rv.id) for t in a.targets)] if isinstance(rv, ast.Name) else []
+                src = norm(stores[0].value) if len(stores) == 1 else norm(rv)
+                if src != "self.fork()":
+                    bad_adds.append(f"{q}: {norm(n)[:50]}")
+    chk.ob("R05.5", "overlay.Overlay:rules-of-a-block-are-added-to-a-fork", len(forks) >= 3 and not bad_adds, "ptera/overlay.py",
+           f"the context-manager conveniences (tweaking / rewriting / tapping) add their rule to `self.fork()`, not to the overlay itself ({len(forks)} sites){': ' + str(bad_adds) if bad_adds else ''}")
     pl = repo.func("overlay.HandlerCollection.plus")
     r = returns_of(pl.node)
     ok = len(r) == 1 and isinstance(r[0].value, ast.Call) and "self.handler_pairs" in norm(r[0].value) and "handler_pairs" in {n.id for n in ast.walk(r[0].value) if isinstance(n, ast.Name)}
